@@ -1,30 +1,22 @@
-"""Custom exceptions of the module under test: several public ones and a module-private one."""
+"""Custom exceptions of the module under test: several public ones and a module-private one.
+
+The functions come first so that the enumeration's neutral choices (first accessible object) reach them."""
 
 
-class BelowRangeError(Exception):
-    pass
-
-
-class AboveRangeError(Exception):
-    pass
-
-
-class NotSmallError(ValueError):
-    pass
-
-
-class _Closed(Exception):
-    pass
+def guard(x: int) -> int:
+    if x <= 0:
+        raise _Closed("not positive")
+    return x
 
 
 def check(x: int) -> int:
     """Range check.
 
     Raises:
-        BelowRangeError: if negative
+        BelowRangeError: if not positive
         AboveRangeError: if above ten
     """
-    if x < 0:
+    if x <= 0:
         raise BelowRangeError(x)
     if x > 10:
         raise AboveRangeError(x)
@@ -51,3 +43,19 @@ class Ledger:
             raise _Closed("closed")
         self.total += amount % 7
         return self.total
+
+
+class BelowRangeError(Exception):
+    pass
+
+
+class AboveRangeError(Exception):
+    pass
+
+
+class NotSmallError(ValueError):
+    pass
+
+
+class _Closed(Exception):
+    pass
